@@ -198,7 +198,7 @@ def run_conn(cases, tag, release=False, jobs=16):
         with open(sf, "w") as f:
             for b in blocks[k::nsh]:
                 f.write(b if b.endswith("\n") else b + "\n")
-        procs.append((subprocess.Popen([build.driver_bin(), "conn", sf, aux, so], stdout=subprocess.PIPE, stderr=subprocess.STDOUT), so))
+        procs.append((subprocess.Popen([build.driver_bin(), "conn", sf, aux, so], stdout=subprocess.PIPE, stderr=subprocess.STDOUT, preexec_fn=build._big_stack), so))
     mo = {}
     for pr, so in procs:
         out, _ = pr.communicate(timeout=3000)
